@@ -368,12 +368,18 @@ def memberNamesM (m : Module) : List (Option String) :=
     | .struct ms _ => ms.map (·.name)
     | _ => []
 
+/-- the constants the generated module may define itself -/
+def generatedConstNamesM (m : Module) : List String :=
+  m.entries.map (fun e => "ENTRY_" ++ e.upper) ++ ["SOURCE", "PUSH_CONSTANT_STAGES"] ++ preludeValueNames
+
 /-- WGSL names that neither shadow a crate / prelude name the generated text spells nor can be captured by an
 unhygienic binding: struct names are not crate or prelude type names; constants are written without lower-case
-letters and are not called like a struct member or `None` / `Some`. -/
+letters and are not called like a struct member or `None` / `Some`; no member is called like a generated constant. -/
 structure ShadowBenign (m : Module) : Prop where
   structs : ∀ n ∈ structTypeNames m, n ∉ allCrateNames ∧ n ∉ preludeTypeNames
   consts : ∀ c ∈ consts m, c.name ∉ preludeValueNames ∧ hasLower c.name = false ∧ some c.name ∉ memberNamesM m
+  /-- no struct member is named like a constant the generated module defines -/
+  generated : ∀ n ∈ generatedConstNamesM m, some n ∉ memberNamesM m
 
 theorem crateNames_sub (o : Out) : ∀ n ∈ crateNames o, n ∈ allCrateNames := by
   intro n hn
@@ -417,39 +423,71 @@ theorem C01_shadow {m : Module} {o : Options} {src : String} {path : Option Stri
     | false => rfl
     | true => exact (hn (List.contains_iff_mem.mp hcc)).elim
 
-/-- **C01** (capture): no exported constant can be captured by a binding of a derive expansion or of the generated
-functions (it has no lower-case letter and is not named like a field). -/
+/-- an emitted field is named like a member of some struct type -/
+theorem field_name_is_member {m : Module} {o : Options} {src : String} {path : Option String} {out : Out}
+    (hg : gen m o src path = .ok out) {n : String}
+    (hcc : (out.structs.flatMap fun s => s.fields.map (·.name)).contains n = true) : some n ∈ memberNamesM m := by
+  have hp := gen_ok hg
+  obtain ⟨s, hs, hf⟩ := List.mem_flatMap.mp (List.contains_iff_mem.mp hcc)
+  obtain ⟨hd, ty, ms, sp, hin, _, hi, hr⟩ := structs_mem hp.structs hs
+  obtain ⟨name, fields, offs, _, hff, _, _, _, _, e⟩ := rustStruct_ok hr
+  unfold structMembers at hff
+  have hnames := structMembersFrom_names _ 0 fields hff
+  have hfe : s.fields = fields := by rw [e]
+  rw [hfe] at hf
+  have h1 : some n ∈ fields.map (fun f => some f.name) := by
+    obtain ⟨f, hfm, hfn⟩ := List.mem_map.mp hf
+    exact List.mem_map.mpr ⟨f, hfm, by rw [hfn]⟩
+  rw [hnames] at h1
+  have h2 : some n ∈ ms.map (·.name) := (List.Sublist.map _ List.filter_sublist).subset h1
+  unfold memberNamesM
+  exact List.mem_flatMap.mpr ⟨(hd, ty), hin, by simp only [hi]; exact h2⟩
+
+theorem generatedConstNames_sub {m : Module} {o : Options} {src : String} {path : Option String} {out : Out}
+    (hg : gen m o src path = .ok out) :
+    ∀ n ∈ generatedConstNames out ++ preludeValueNames, n ∈ generatedConstNamesM m := by
+  have hp := gen_ok hg
+  obtain ⟨push, _, hps, _⟩ := hp.push
+  intro n hn
+  unfold generatedConstNames at hn
+  unfold generatedConstNamesM
+  rw [hp.entryConsts, hps] at hn
+  simp only [List.mem_append] at hn ⊢
+  rcases hn with ((hn | hn) | hn) | hn
+  · left; left
+    unfold entryPointConstants at hn
+    simpa [List.map_map, Function.comp_def] using hn
+  · left; right; simp at hn; simp [hn]
+  · left; right
+    cases push with
+    | none => simp at hn
+    | some p => simp at hn; simp [hn]
+  · right; exact hn
+
+/-- **C01** (capture): no constant in scope - exported or generated - can be captured by a binding of a derive
+expansion or of the generated functions (it has no lower-case letter and is not named like a field). -/
 theorem C01_capture {m : Module} {o : Options} {src : String} {path : Option String} {out : Out}
     (hb : ShadowBenign m) (hg : gen m o src path = .ok out) : captureIssues out = [] := by
   have hp := gen_ok hg
   unfold captureIssues
-  apply filterMap_nil_of
-  intro c hc
-  rw [hp.consts] at hc
-  obtain ⟨_, hl, hmn⟩ := hb.consts c hc
-  have hnf : (out.structs.flatMap fun s => s.fields.map (·.name)).contains c.name = false := by
-    cases hcc : (out.structs.flatMap fun s => s.fields.map (·.name)).contains c.name with
+  simp only [List.append_eq_nil_iff]
+  refine ⟨?_, ?_⟩
+  · apply filterMap_nil_of
+    intro c hc
+    rw [hp.consts] at hc
+    obtain ⟨_, hl, hmn⟩ := hb.consts c hc
+    have hnf : (out.structs.flatMap fun s => s.fields.map (·.name)).contains c.name = false := by
+      cases hcc : (out.structs.flatMap fun s => s.fields.map (·.name)).contains c.name with
+      | false => rfl
+      | true => exact (hmn (field_name_is_member hg hcc)).elim
+    rw [hl, hnf]
+    rfl
+  · apply filterMap_nil_of
+    intro n hn
+    have hmn := hb.generated n (generatedConstNames_sub hg n hn)
+    cases hcc : (out.structs.flatMap fun s => s.fields.map (·.name)).contains n with
     | false => rfl
-    | true =>
-      exfalso
-      apply hmn
-      obtain ⟨s, hs, hf⟩ := List.mem_flatMap.mp (List.contains_iff_mem.mp hcc)
-      obtain ⟨hd, ty, ms, sp, hin, _, hi, hr⟩ := structs_mem hp.structs hs
-      obtain ⟨name, fields, offs, _, hff, _, _, _, _, e⟩ := rustStruct_ok hr
-      unfold structMembers at hff
-      have hnames := structMembersFrom_names _ 0 fields hff
-      have hfe : s.fields = fields := by rw [e]
-      rw [hfe] at hf
-      have h1 : some c.name ∈ fields.map (fun f => some f.name) := by
-        obtain ⟨f, hfm, hfn⟩ := List.mem_map.mp hf
-        exact List.mem_map.mpr ⟨f, hfm, by rw [hfn]⟩
-      rw [hnames] at h1
-      have h2 : some c.name ∈ ms.map (·.name) :=
-        (List.Sublist.map _ List.filter_sublist).subset h1
-      unfold memberNamesM
-      exact List.mem_flatMap.mpr ⟨(hd, ty), hin, by simp only [hi]; exact h2⟩
-  rw [hl, hnf]
-  rfl
+    | true => exact (hmn (field_name_is_member hg hcc)).elim
 
 theorem not_mem_of_contains_false {α : Type} [BEq α] [LawfulBEq α] {l : List α} {a : α}
     (h : l.contains a = false) : a ∉ l := by
@@ -459,16 +497,18 @@ theorem not_mem_of_contains_false {α : Type} [BEq α] [LawfulBEq α] {l : List 
 
 def shadowBenignB (m : Module) : Bool :=
   (structTypeNames m).all (fun n => !allCrateNames.contains n && !preludeTypeNames.contains n) &&
-  (consts m).all (fun c => !preludeValueNames.contains c.name && !hasLower c.name && !(memberNamesM m).contains (some c.name))
+  (consts m).all (fun c => !preludeValueNames.contains c.name && !hasLower c.name && !(memberNamesM m).contains (some c.name)) &&
+  (generatedConstNamesM m).all (fun n => !(memberNamesM m).contains (some n))
 
 theorem shadowBenignB_sound (m : Module) (h : shadowBenignB m = true) : ShadowBenign m := by
   unfold shadowBenignB at h
   simp only [Bool.and_eq_true, List.all_eq_true, Bool.not_eq_true'] at h
-  refine ⟨fun n hn => ?_, fun c hc => ?_⟩
-  · have := h.1 n hn
+  refine ⟨fun n hn => ?_, fun c hc => ?_, fun n hn => ?_⟩
+  · have := h.1.1 n hn
     exact ⟨not_mem_of_contains_false this.1, not_mem_of_contains_false this.2⟩
-  · have := h.2 c hc
+  · have := h.1.2 c hc
     exact ⟨not_mem_of_contains_false this.1.1, this.1.2, not_mem_of_contains_false this.2⟩
+  · exact not_mem_of_contains_false (h.2 n hn)
 
 /-! ### Putting the proved clauses together -/
 
